@@ -8,6 +8,7 @@ import (
 	"testing"
 
 	"pgregory.net/rapid"
+	"verifharness/bmodel"
 	"verifharness/evid"
 	"verifharness/gen"
 	"verifharness/rk"
@@ -554,6 +555,84 @@ func TestStringMembership(t *testing.T) {
 		}
 	}
 	evid.Exhaustive("needle x haystack over valid, invalid and partial encodings; byte slices and for-in characters as needles", n)
+}
+
+// TestRetypedKeys: the operand kinds an operator sees are those of the value a point key holds NOW: a key whose value
+// was replaced by one of another type (rename over an existing key, add_key, cast, set_tag) is read with its new type.
+func TestRetypedKeys(t *testing.T) {
+	olds := []any{1.5, "old", true, nil, int64(3)}
+	news := []any{int64(7), 2.5, "new", false, nil}
+	extra := bmodel.Field()
+	n := 0
+	for oi, old := range olds {
+		for ni, nw := range news {
+			for how := 0; how < 5; how++ {
+				c := sem.NewCase(nil)
+				c.Fields = map[string]any{"k": old, "other": int64(1)}
+				var prog []*gen.Node
+				switch how {
+				case 0: // rename an existing field of another type over it
+					c.Fields["src"] = nw
+					prog = append(prog, gen.NCall("rename", id("k"), id("src")))
+				case 1:
+					prog = append(prog, gen.NCall("add_key", id("k"), sgen.Lit(nw)))
+				case 2:
+					c.Fields["src"] = nw
+					prog = append(prog, gen.NCall("drop_key", id("k")), gen.NCall("rename", id("k"), id("src")))
+				case 3: // a tag renamed over a field
+					if s, ok := nw.(string); ok {
+						c.Tags = map[string]string{"src": s}
+						prog = append(prog, gen.NCall("rename", id("k"), id("src")))
+					} else {
+						continue
+					}
+				default:
+					c.Fields["src"] = nw
+					prog = append(prog, gen.NCall("rename", id("tmp"), id("src")), gen.NCall("rename", id("k"), id("tmp")))
+				}
+				reads := [][]*gen.Node{
+					{gen.NCall("probe", gen.NStr("div"), gen.NBin("/", id("k"), gen.NInt(2)))},
+					{gen.NCall("probe", gen.NStr("add"), gen.NBin("+", id("k"), gen.NInt(1)))},
+					{gen.NCall("probe", gen.NStr("mul"), gen.NBin("*", id("k"), gen.NFloat(1.5)))},
+					{gen.NCall("probe", gen.NStr("cmp"), gen.NBin("==", id("k"), sgen.Lit(nw)), gen.NBin("==", id("k"), sgen.Lit(old)), gen.NBin("==", id("k"), gen.NNil()), gen.NBin("!=", id("k"), gen.NInt(7)))},
+					{gen.NCall("probe", gen.NStr("less"), gen.NBin("<", id("k"), gen.NInt(5)))},
+					{gen.NCall("probe", gen.NStr("concat"), gen.NBin("+", id("k"), gen.NStr("x")))},
+					{gen.NCall("probe", gen.NStr("in"), gen.NBin("in", gen.NStr("e"), id("k")))},
+					{gen.NCall("probe", gen.NStr("neg"), gen.NUnary("-", id("k")))},
+					{gen.NCall("probe", gen.NStr("not"), gen.NUnary("!", id("k")))},
+					{gen.NCall("probe", gen.NStr("logic"), gen.NBin("&&", id("k"), gen.NBool(true)), gen.NBin("||", id("k"), gen.NBool(false)))},
+					{gen.NAssign("+=", []*gen.Node{id("k")}, []*gen.Node{gen.NInt(1)}), gen.NCall("probe", gen.NStr("compound"), id("k"))},
+				}
+				for ri, rd := range reads {
+					full := append(append([]*gen.Node{}, prog...), rd...)
+					cl := make([]*gen.Node, len(full))
+					for i, x := range full {
+						cl[i] = x.Clone()
+					}
+					cc := sem.NewCase(gen.FixAll(cl))
+					cc.Fields, cc.Tags = map[string]any{}, map[string]string{}
+					for k, v := range c.Fields {
+						cc.Fields[k] = v
+					}
+					for k, v := range c.Tags {
+						cc.Tags[k] = v
+					}
+					cc.Print(nil)
+					v := sem.Decide(cc, func() sem.ImplOut { return sem.RunV1(cc, 0) }, extra, true, true)
+					if v.Discard != nil {
+						evid.Discard(v.Discard.Error())
+						continue
+					}
+					if v.Msg != "" {
+						rk.Fail(t, "retyped-key", cc.Replay(""), "%s\nscript: %q", v.Msg, cc.Texts[cc.Root])
+					}
+					evid.Case(fmt.Sprintf("retyped/%d/%d/%d/%d", oi, ni, how, ri), !v.Weak, "retyped-key")
+					n++
+				}
+			}
+		}
+	}
+	evid.Exhaustive("old value type x new value type x way the key was rewritten, read by every operator family", n)
 }
 
 // TestConstantTails: `x + c1 + c2` is ((x + c1) + c2): float addition is not associative, so the grouping shows in the
